@@ -104,7 +104,12 @@ def snap(tier="quick"):
     # translator self-test (values of the repository's own test + rounding witnesses)
     for (a, tp) in ((0.037, 20), (0.053, 20), (0.29, 100), (0.07, 100), (1.15, 100), (3.0000000000000004, 10), (7.3, 1), (0.5, 3)):
         dom = A.FPX()
-        enc = A.fp_to_py(z3.Solver().model() if False else _empty_model(), z3.simplify(snap_eval(dom, dom.lift(a), tp).t))
+        try:
+            enc = A.fp_to_py(z3.Solver().model() if False else _empty_model(), z3.simplify(snap_eval(dom, dom.lift(a), tp).t))
+        except A.Unsupported as e:
+            # the bit-exact domain cannot express the current source; RLX (below) can, its models are replayed on the real command
+            res.notes.append(f"bit-exact self-test skipped: {e}")
+            break
         real = real_snap(a, tp)
         if enc != real:
             return res.out("inconclusive", f"translator self-test: encoding gives {enc!r}, snap_command {real!r} for a={a!r} tps={tp}")
